@@ -7,7 +7,9 @@ import np_lite
 
 cd = adapters.load_model_cd()
 M = adapters.ModelNP
+import os
 MAX_INF = 3      # infinite streams are cut after this many batches
+MAXN, MAXB, MAXE, MAXS = [int(x) for x in os.environ.get('C04_BOUNDS', '4,3,2,4').split(',')]
 
 
 def expected_steps(n, b, epochs, steps, drop):
@@ -83,10 +85,10 @@ def check_srb(cdm, A, n, b, epochs_c, steps_c, drop, skip, tape):
 
 def srb(n: int, batch_size: int, epochs_c: int, steps_c: int, drop: bool, skip: bool, tape: List[int]) -> bool:
   """
-  pre: 1 <= n <= 4
-  pre: 1 <= batch_size <= 3
-  pre: 0 <= epochs_c <= 2
-  pre: -1 <= steps_c <= 4
+  pre: 1 <= n <= MAXN
+  pre: 1 <= batch_size <= MAXB
+  pre: 0 <= epochs_c <= MAXE
+  pre: -1 <= steps_c <= MAXS
   pre: len(tape) == tape_len(n, batch_size, None if epochs_c == 0 else epochs_c, None if steps_c < 0 else steps_c, drop)
   post: __return__
   """
@@ -106,10 +108,10 @@ def srb_big_batch(n: int, batch_size: int, steps_c: int, tape: List[int]) -> boo
 
 def srb_reach(n: int, batch_size: int, epochs_c: int, steps_c: int, drop: bool, skip: bool, tape: List[int]) -> bool:
   """
-  pre: 1 <= n <= 4
-  pre: 1 <= batch_size <= 3
-  pre: 0 <= epochs_c <= 2
-  pre: -1 <= steps_c <= 4
+  pre: 1 <= n <= MAXN
+  pre: 1 <= batch_size <= MAXB
+  pre: 0 <= epochs_c <= MAXE
+  pre: -1 <= steps_c <= MAXS
   pre: len(tape) == tape_len(n, batch_size, None if epochs_c == 0 else epochs_c, None if steps_c < 0 else steps_c, drop)
   post: not __return__
   """
